@@ -43,13 +43,13 @@ def _strategy(kinds):
             cfg = draw(simcfg.ns_config(tier, kinds=kinds))
             dim = simcfg.sim_dim(cfg["sim"])
             ncomp_primary = {"ns2d": 1, "ns3d": 3, "passive2d": 1, "passive3d_scalar": 1, "passive3d_vector": 3}[cfg["sim"]]
-            fk = ["constant", "poly", "bumps", "spikes", "checker", "noise", "mixed", "boxnoise"]
+            fk = ["constant", "poly", "bumps", "spikes", "checker", "noise", "mixed", "boxnoise", "stream"]
             return {
                 "cfg": cfg,
                 "primary": draw(gen.vector_field_spec(ncomp_primary, kinds=fk, max_mag_exp=6)),
                 # passive transport: favour sign-changing velocities so that both upwind branches occur on the grid
                 "velocity": draw(gen.vector_field_spec(dim, kinds=(fk + ["zero"]) if cfg["sim"].startswith("ns")
-                                                       else ["poly", "noise", "mixed", "checker", "noise", "mixed", "constant"],
+                                                       else ["poly", "noise", "mixed", "checker", "noise", "mixed", "constant", "stream"],
                                                        max_mag_exp=4)),
                 "forcing": draw(gen.vector_field_spec(dim, kinds=fk + ["zero"], max_mag_exp=6)),
                 "free_stream": draw(st.lists(st.one_of(gen.floats(-4.0, 4.0, 32), gen.floats(-4.0, 4.0, 32), st.just(0.0)), min_size=dim, max_size=dim)),
@@ -179,7 +179,7 @@ def _hist_strategy(kinds):
             fk = ["constant", "poly", "bumps", "spikes", "checker", "noise", "mixed", "boxnoise"]
             state = st.fixed_dictionaries({
                 "primary": gen.vector_field_spec(ncomp, kinds=fk, max_mag_exp=5),
-                "velocity": gen.vector_field_spec(dim, kinds=["poly", "noise", "mixed", "checker", "constant", "bumps"], max_mag_exp=3),
+                "velocity": gen.vector_field_spec(dim, kinds=["poly", "noise", "mixed", "checker", "constant", "bumps", "stream"], max_mag_exp=3),
             })
             op = st.one_of(
                 st.fixed_dictionaries({"op": st.just("step"), "who": st.integers(0, 1),
